@@ -463,7 +463,10 @@ let judge_reduced args forms =
   let red v = Zar.erem v m in
   let a = red (z (List.nth args 2)) in
   let cls = "m-" ^ op in
-  if op = "neg" then verdict ~cls [ "v"; "r" ] forms (all_same (exactly (V (hx (c15_mneg m a)))))
+  if op = "sqr" then verdict ~cls [ "m"; "mul_vv"; "mul_rr" ] forms (all_same (exactly (V (hx (c15_mmul m a a)))))
+  else if op = "dbl" then verdict ~cls [ "m"; "add_vv"; "add_rr" ] forms (all_same (exactly (V (hx (c15_madd m a a)))))
+  else if op.[0] = 'x' then verdict ~cls (own4 @ asg2) forms (all_same (exactly (P "DifferentRings")))
+  else if op = "neg" then verdict ~cls [ "v"; "r" ] forms (all_same (exactly (V (hx (c15_mneg m a)))))
   else
     let b = red (z (List.nth args 3)) in
     let w = match op with
@@ -527,6 +530,57 @@ let judge_clone_reduced args forms =
   let r = Zar.erem (z (List.nth args 1)) m in
   verdict ~cls:"clone-reduced" [ "reduced" ] forms (all_same (exactly (V (hx r ^ "," ^ hx r ^ ",1"))))
 
+
+(* ---------------------------------------------------------------- Sum / Product, method vs Context *)
+let fold_names = [ "owned"; "refs"; "fold_v"; "fold_r" ]
+let rec drop n l = if n <= 0 then l else match l with [] -> [] | _ :: t -> drop (n - 1) t
+let rec pairs = function a :: b :: t -> (a, b) :: pairs t | _ -> []
+
+let judge_iter args forms =
+  let op = List.nth args 0 and kind = List.nth args 1 in
+  let rest = drop 2 args in
+  let cls = "it-" ^ op ^ "-" ^ kind in
+  let first = (match forms with (_, f) :: _ -> f | [] -> P "none") in
+  match kind with
+  | "u" | "i" ->
+      let vs = List.map z rest in
+      let r = if op = "sum" then List.fold_left Zar.add Zar.zero vs else List.fold_left Zar.mul Zar.one vs in
+      verdict ~cls fold_names forms (all_same (exactly (V (hx r))))
+  | "q" | "x" ->
+      let vs = List.map (fun (n, d) -> canon (z n) (z d)) (pairs rest) in
+      let o = if op = "sum" then OAdd else OMul in
+      let init = if op = "sum" then (Zar.zero, Zar.one) else (Zar.one, Zar.one) in
+      let r = List.fold_left (fun acc v -> match acc with Ok a -> c15_qbin o a v | e -> e) (Ok init) vs in
+      verdict ~cls fold_names forms (all_same (qwant (kind = "x") first r))
+  | _ -> fail ("unknown-kind-it-" ^ kind)
+
+(* floats: every item is rounded into the running precision, the explicit folds are judged by the `f`
+   cases; here the four forms must return the same thing *)
+let judge_iter_float args forms =
+  let op = List.nth args 0 in
+  let first = (match forms with (_, f) :: _ -> f | [] -> P "none") in
+  let has_inf = List.exists (fun t -> t = "inf" || t = "-inf") args in
+  let ok g = g = first && (match g with V _ -> not has_inf | P c -> has_inf && starts_with "OperateWithInf" c) in
+  verdict ~cls:("itf-" ^ op) ~nt:false fold_names forms (all_same { ok; txt = "all-forms-identical" })
+
+let judge_fmethod args forms =
+  let op = List.nth args 0 and b = z (List.nth args 1) and m = mode_of (List.nth args 2) in
+  let a i = List.nth args i in
+  let p = z (a 3) in
+  let x = fopnd b (a 4) (a 5) in
+  let cls = "fm-" ^ op in
+  let names = [ "m"; "ctx" ] in
+  let first = (match forms with (_, f) :: _ -> f | [] -> P "none") in
+  let agree = { ok = (fun g -> g = first); txt = "all-forms-identical" } in
+  match op, x with
+  | "sqrt", Fin (s, e) ->
+      if Zar.sign p = 0 then verdict ~cls names forms (all_same (exactly (P "UnlimitedPrecision")))
+      else if Zar.sign s < 0 then verdict ~cls names forms (all_same (exactly (P "RootNegative")))
+      else
+        let (n, d) = frac b s e in
+        verdict ~cls names forms (all_same { ok = (fun g -> g = first && contract_ok b p m (XSqrt (n, d)) g); txt = "sqrt-contract+all-forms-identical" })
+  | _ -> verdict ~cls ~nt:false names forms (all_same agree)
+
 let judge op args got =
   match got with
   | "ok" :: toks when toks <> [] ->
@@ -544,6 +598,9 @@ let judge op args got =
        | "qi" | "xi" -> judge_ratio_int op args forms
        | "qu" | "xu" -> judge_ratio_unary op args forms
        | "m" -> judge_reduced args forms
+       | "it" -> judge_iter args forms
+       | "itf" -> judge_iter_float args forms
+       | "fm" -> judge_fmethod args forms
        | "clone" -> judge_clone args forms
        | "clonef" -> judge_clone_float args forms
        | "cloneq" -> judge_clone_ratio args forms
